@@ -458,6 +458,9 @@ func parseModString(str string) (andMask int32, orMask int32, err error) {
 	if haveOctal {
 		var v int64
 		v, err = strconv.ParseInt(str, 8, 32)
+		if err == nil && v > vdb.PermBits {
+			err = fmt.Errorf("bad mode setting %s", str)
+		}
 		orMask = int32(v)
 		return
 	}
